@@ -45,3 +45,21 @@ func init() {
 		Trusted: []string{"T1 go toolchain, go/types, go/constant", "T2 govc ground evaluator", "restricted replacements are taken from the documented list (extract.go `restricted`)"},
 	})
 }
+
+func init() {
+	trusted := []string{"T1 go toolchain, go/types, solvers", "T2 govc VC generator", "A3 sequential semantics for sync/atomic and mutexes", "opaque callees (runCfg, gen*) preserve frame.id/Interpreter.id: justified by the id-writers obligation"}
+	register(&PropDef{
+		ID: "C09", Patterns: []string{"./interp"},
+		Extra:   func(r *Run) { r.idWriters() },
+		Covered: []string{"newFrame/clone/stop contracts", "id inheritance at every newFrame call site", "run-id gate before every exec closure application in both runCfg loops", "writers of frame.id / Interpreter.id enumerated"},
+		Uncov:   []string{"promptness (time) and goroutine exit", "interleavings of stop with a running frame", "blocking channel operations racing f.done (contracts not yet written)"},
+		Trusted: trusted,
+	})
+	register(&PropDef{
+		ID: "C10", Patterns: []string{"./interp"},
+		Extra:   func(r *Run) { r.idWriters() },
+		Covered: []string{"Execute refreshes the root frame id before any run", "resizeFrame leaves ids untouched", "entry obligation of host-callable wrappers (expected findings)"},
+		Uncov:   []string{"whole histories of evaluations; symbol tables after a cancelled compile phase"},
+		Trusted: trusted,
+	})
+}
